@@ -16,7 +16,9 @@ Record call_obs : Type := mkObs {
   ob_found : bool;        (* find_in_ast returned a node *)
   ob_cmp : bool;          (* cmp_ast(original, replacement) *)
   ob_replaced : bool;     (* RewriteAtQuery.replaced *)
-  ob_present : bool       (* independent resolver: the named definition was in the file before the call *)
+  ob_present : bool;      (* independent resolver: the named definition was in the file before the call *)
+  ob_enclosing : bool;    (* dotted names: the enclosing class was in the file before the call *)
+  ob_rebinding : bool     (* the first node at the target's location that is not a FunctionDef is an assignment to the target's name (X = f(X)), not its class definition *)
 }.
 
 Inductive sync_class : Type :=
@@ -24,6 +26,8 @@ Inductive sync_class : Type :=
 | K_found_not_replaced       (* REPLACE fails: FunctionDef targets are never replaced *)
 | K_not_found_but_present    (* FIND fails on a target: the definition exists but is not found; a copy is appended *)
 | K_dotted_written_top_level (* a method target that is created/appended lands at module level, so FIX fails *)
+| K_same_named_binding_replaced (* RewriteAtQuery replaces the first NODE whose location is the searched one: an assignment to the
+                                   target's name is replaced by the new definition (and a FunctionDef never is) *)
 | K_other_docstring_reformatted (* a whole-module rewrite formats the file with black, which re-indents the docstrings of the OTHER definitions: their docstring constants change *)
 | K_module_docstring_reindented (* RENDER_PARSE fails on the module docstring: ast_parse re-indents it on read, so a whole-module rewrite changes that statement *)
 | K_written_compares_unequal. (* FIX fails: what sync wrote is found but never compares equal (docstring re-indent) *)
@@ -36,6 +40,7 @@ Definition sync_class_name (k : sync_class) : str :=
   | K_dotted_written_top_level => L "method-target-written-at-module-level"
   | K_module_docstring_reindented => L "module-docstring-reindented"
   | K_other_docstring_reformatted => L "other-docstring-reformatted"
+  | K_same_named_binding_replaced => L "same-named-binding-replaced"
   | K_written_compares_unequal => L "written-definition-compares-unequal"
   end.
 
@@ -50,26 +55,27 @@ Definition classify_frame (only_module_docstring_differs only_docstrings_differ 
 (* what can go wrong when the target is installed (first run): only the call of run 0 matters *)
 Definition classify_install (dotted : bool) (c0 : call_obs) : option sync_class :=
   if ob_found c0 && negb (ob_cmp c0) && negb (ob_replaced c0) then Some K_found_not_replaced
+  else if ob_found c0 && negb (ob_cmp c0) && ob_replaced c0 && ob_rebinding c0 then Some K_same_named_binding_replaced
   else if negb (ob_found c0) && ob_present c0 then Some K_not_found_but_present
   else if negb (ob_found c0) && dotted then Some K_dotted_written_top_level
   else None.
 
-(* what can go wrong when sync is repeated: the FIX law on the second run's call *)
+(* what can go wrong when sync is repeated: the FIX law on the second run's call, judged on that call alone
+   (what went wrong at installation and persists is tried separately by the harness, see sync_props.PERSISTS) *)
 Definition classify_repeat (dotted : bool) (c0 : call_obs) (c1 : option call_obs) : option sync_class :=
-  match classify_install dotted c0 with
-  | Some k => Some k
-  | None =>
-    match c1 with
-    | Some c =>
-      if ob_found c && negb (ob_cmp c) then
-        (* since the comparison goes through the written form (_as_written) only a class nested in another
-           class still compares unequal to its re-emission *)
-        (if ob_replaced c && dotted then Some K_written_compares_unequal else None)
-      else if negb (ob_found c) then
-        (if dotted then Some K_dotted_written_top_level else Some K_not_found_but_present)
-      else None
-    | None => None
-    end
+  match c1 with
+  | Some c =>
+    if ob_found c && negb (ob_cmp c) then
+      (* since the comparison goes through the written form (_as_written) only a class nested in another
+         class still compares unequal to its re-emission *)
+      (if ob_replaced c && dotted then Some K_written_compares_unequal else None)
+    else if negb (ob_found c) then
+      (* a method written at module level is found again by the lenient lookup unless its class is in the file:
+         only then is it appended once more on every run *)
+      (if dotted then (if ob_enclosing c then Some K_dotted_written_top_level else None)
+       else if ob_present c then Some K_not_found_but_present else None)
+    else None
+  | None => None
   end.
 
 (* classification of one target from its call in run 0 and (if any) its call in run 1 *)
@@ -82,10 +88,10 @@ Definition guard_sync_target (dotted : bool) (c0 : call_obs) (c1 : option call_o
 
 Definition dec_obs (e : sexp) : option call_obs :=
   match e with
-  | SList [a; b; c; d; x] =>
-    match dec_bool a, dec_bool b, dec_bool c, dec_bool d, dec_bool x with
-    | Some a, Some b, Some c, Some d, Some x => Some (mkObs a b c d x)
-    | _, _, _, _, _ => None
+  | SList [a; b; c; d; x; y; z] =>
+    match dec_bool a, dec_bool b, dec_bool c, dec_bool d, dec_bool x, dec_bool y, dec_bool z with
+    | Some a, Some b, Some c, Some d, Some x, Some y, Some z => Some (mkObs a b c d x y z)
+    | _, _, _, _, _, _, _ => None
     end
   | _ => None
   end.
